@@ -7,6 +7,7 @@ import (
 	"sync/atomic"
 
 	"github.com/celestiaorg/go-header"
+	"github.com/celestiaorg/go-header/verifhook"
 )
 
 // errNonAdjacent is returned when syncer is appended with a header not adjacent to the stored head.
@@ -80,6 +81,7 @@ func (s *syncStore[H]) Append(ctx context.Context, headers ...H) error {
 		s.head.Store(&head)
 	}
 
+	verifhook.At("sync.syncStore.Append.beforeStore")
 	if err := s.Store.Append(ctx, headers...); err != nil {
 		return err
 	}
